@@ -56,12 +56,12 @@ ASSUMPTIONS = [
 
 def arms(tier):
     if tier == "thorough":
-        return [("learn_adv", 350_000), ("learn_uni", 150_000), ("prune", 200_000), ("relevance", 300_000)]
-    return [("learn_adv", 9_000), ("learn_uni", 4_000), ("prune", 6_000), ("relevance", 9_000)]
+        return [("learn_adv", 1_800_000), ("learn_uni", 700_000), ("prune", 1_000_000), ("relevance", 1_500_000)]
+    return [("learn_adv", 60_000), ("learn_uni", 25_000), ("prune", 40_000), ("relevance", 60_000)]
 
 
 def hist_slice(tier):
-    return 1
+    return 4 if tier == "thorough" else 1
 
 
 def gen_case(rng, arm, tier, k=0):
